@@ -5,8 +5,9 @@ from vlib import pm, refframe, specpdu
 from vlib.engine import Disc, Outcome
 
 PID = 'C16'
-RULE = ('Hypothesis: a Twisted ModbusClientProtocol on a StringTransport, TCP variant (socket framer, dictionary manager) or '
-        'serial RTU variant (FIFO manager), driven by a history of 1..25 operations: issue a request (unit 1..247), deliver '
+RULE = ('Hypothesis: a Twisted ModbusClientProtocol on a StringTransport, TCP variant (socket framer, dictionary manager), '
+        'serial RTU variant (FIFO manager) - built from a framer instance, a framer class or the ready-made subclasses - or the '
+        'datagram variant ModbusUdpClientProtocol (whole replies per datagram, no connection), driven by a history of 1..25 operations: issue a request (unit 1..247), deliver '
         'the reply of pending request k (any order on TCP, oldest first on serial), deliver several replies coalesced into one '
         'read, deliver one reply split over two reads, inject an unsolicited reply (unused transaction id), inject a duplicate '
         'of an already delivered reply, lose the connection, issue after the loss; the transaction-id counter starts at 0 or '
@@ -23,7 +24,7 @@ BUDGET = {'quick': 4000, 'thorough': 12000}
 
 @st.composite
 def _case(draw):
-    variant = draw(st.sampled_from(['tcp', 'tcp', 'rtu']))
+    variant = draw(st.sampled_from(['tcp', 'tcp', 'rtu', 'udp']))
     ops = []
     for _ in range(draw(st.integers(1, 25))):
         o = draw(st.sampled_from(['req', 'req', 'req', 'reply', 'reply', 'coalesce', 'split', 'unsolicited', 'dup', 'lose', 'stray+reply', 'req-retry']))
@@ -48,7 +49,9 @@ def _case(draw):
             ops.append([o, draw(st.integers(0, 9))])
     return {'variant': variant, 'tid_start': draw(st.sampled_from([0, 0, 0xFFF0, 0xFFFD, 0xFFFE])), 'ops': ops,
             # the protocol accepts a framer instance or a framer class
-            'framer_as_class': draw(st.booleans())}
+            'framer_as_class': draw(st.booleans()),
+            # ModbusClientProtocol itself or the ready-made subclass (ModbusTcpClientProtocol / ModbusSerClientProtocol with their default framer)
+            'ctor': draw(st.sampled_from(['base', 'base', 'subclass']))}
 
 
 def strategy(tier):
@@ -72,14 +75,34 @@ def run_case(case):
     from pymodbus.register_read_message import ReadHoldingRegistersRequest
     pm.reset_globals()
     variant = case['variant']
-    framing = 'tcp' if variant == 'tcp' else 'rtu'
     labels = ['variant:' + variant]
     discs = []
-    fcls = ModbusSocketFramer if variant == 'tcp' else ModbusRtuFramer
-    proto = ModbusClientProtocol(framer=fcls if case.get('framer_as_class') else fcls(ClientDecoder()))
-    if case.get('framer_as_class'):
-        labels.append('framer-given-as-class')
-    tr = StringTransport()
+    framing = 'rtu' if variant == 'rtu' else 'tcp'
+    fcls = ModbusSocketFramer if framing == 'tcp' else ModbusRtuFramer
+    if variant == 'udp':
+        from pymodbus.client.asynchronous.twisted import ModbusUdpClientProtocol
+        proto = ModbusUdpClientProtocol(host='peer', port=502)
+
+        class DatagramTransport(object):
+            def __init__(self):
+                self.buf = b''
+
+            def write(self, packet, addr=None):
+                self.buf += bytes(packet)
+
+            def value(self):
+                return self.buf
+        tr = DatagramTransport()
+    elif case.get('ctor') == 'subclass':
+        from pymodbus.client.asynchronous.twisted import ModbusTcpClientProtocol, ModbusSerClientProtocol
+        proto = (ModbusTcpClientProtocol if variant == 'tcp' else ModbusSerClientProtocol)()
+        labels.append('ready-made-subclass')
+        tr = StringTransport()
+    else:
+        proto = ModbusClientProtocol(framer=fcls if case.get('framer_as_class') else fcls(ClientDecoder()))
+        if case.get('framer_as_class'):
+            labels.append('framer-given-as-class')
+        tr = StringTransport()
     proto.makeConnection(tr)
     proto.transaction.tid = case['tid_start']
     reqs = []          # dict(idx, tid, unit, count, fired=[...], failed=[...], answered, frame)
@@ -121,7 +144,10 @@ def run_case(case):
 
     def feed(data, what):
         try:
-            proto.dataReceived(data)
+            if variant == 'udp':
+                proto.datagramReceived(data, ('peer', 502))
+            else:
+                proto.dataReceived(data)
         except Exception as e:
             discs.append(Disc('dataReceived-raises', '%s: %s: %s (ops so far %r)' % (what, type(e).__name__, e, done_ops[-6:])))
 
@@ -157,6 +183,16 @@ def run_case(case):
             labels.append('wrap-history')
             return Outcome(discs, labels, True)
         for op in case['ops']:
+            if variant == 'udp':
+                # datagrams: no connection to lose, a reply is one whole datagram
+                if op[0] in ('lose', 'stray+reply'):
+                    continue
+                if op[0] == 'split':
+                    op = ['reply', op[1]]
+                elif op[0] == 'coalesce':
+                    op = ['reply', op[1][0]]
+                elif op[0] == 'req':
+                    op = op[:3]
             done_ops.append(op)
             if discs:
                 break
